@@ -211,6 +211,10 @@ def run(ctx):
                    loc=f.loc())
             ctx.notes[f"paths_{nm}_{r}x{c}"] = paths
 
+    # ------------------------------------------------------------------ D3 the reflectors themselves (shared with C08)
+    from .c08 import _check_householder
+    _check_householder(ctx, prog, RULE="C09.D3.reflector")
+
     ctx.require_instances("C09.D1.similarity", len(sizes))
     ctx.require_instances("C09.D1.accumulation", len([n for n in sizes if n > 2]))
     ctx.require_instances("C09.D1.reflectors", len([n for n in sizes if n > 2]))
